@@ -24,7 +24,7 @@ import vlib
 LEVEL = "proof"
 MODULE = "Sqfs.Props.C08"
 REQUIRED = ["Sqfs.C08.bw_no_error", "Sqfs.C08.bw_readback", "Sqfs.C08.bw_share_sound", "Sqfs.C08.bw_share_complete",
-            "Sqfs.C08.frag_no_error", "Sqfs.C08.frag_sound", "Sqfs.C08.frag_share"]
+            "Sqfs.C08.frag_no_error", "Sqfs.C08.frag_sound", "Sqfs.C08.frag_share", "Sqfs.C08.frag_lookup_unique"]
 
 F_DONT_COMPRESS, F_DONT_HASH, F_DONT_FRAGMENT, F_DONT_DEDUP, F_IGNORE_SPARSE = 1, 2, 4, 8, 0x10
 F_SPARSE, F_FIRST, F_LAST, F_IS_FRAGMENT, F_FRAGBLK, F_COMPRESSED = 0x400, 0x800, 0x1000, 0x2000, 0x4000, 0x8000
